@@ -16,7 +16,11 @@ CONSTANTS N,             \* number of workers
           NoNode,        \* placeholder node value for quit / none
           Spurious,      \* BOOLEAN: a receive may fail although work exists (crossbeam's Retry)
           EarlyQuit,     \* BOOLEAN envelope: Quit may be broadcast before the counter reaches 0
-          MayIgnoreFlag  \* BOOLEAN envelope: a worker may not notice the quit flag
+          MayIgnoreFlag, \* BOOLEAN envelope: a worker may not notice the quit flag
+          Mutant         \* "none", or a deliberately broken protocol for the non-vacuity self-test:
+                         \*   "noresend"   a worker that received Quit leaves without pushing it again
+                         \*   "nolastquit" the last worker to go idle does not broadcast Quit
+                         \*   "quitflag0"  the quit flag is raised when the counter reaches 0 (seeded change C07-A)
 
 VARIABLES tree,     \* [ch |-> function node -> set of children, roots |-> sequence of root nodes]
           quitAt,   \* set of nodes at which the visitor answers Quit
@@ -128,10 +132,11 @@ SetQuit(w) ==
 Deactivate(w) ==
   /\ pc[w] = "deact"
   /\ active' = active - 1
-  /\ \/ active' = 0 /\ pc' = [pc EXCEPT ![w] = "pushquit"]
-     \/ active' # 0 /\ pc' = [pc EXCEPT ![w] = "idle"]
+  /\ \/ active' = 0 /\ Mutant # "nolastquit" /\ pc' = [pc EXCEPT ![w] = "pushquit"]
+     \/ (active' # 0 \/ Mutant = "nolastquit") /\ pc' = [pc EXCEPT ![w] = "idle"]
      \/ EarlyQuit /\ active' # 0 /\ pc' = [pc EXCEPT ![w] = "pushquit"]
-  /\ UNCHANGED <<tree, quitAt, deque, hand, todo, quitNow, visited>>
+  /\ quitNow' = (quitNow \/ (Mutant = "quitflag0" /\ active' = 0))
+  /\ UNCHANGED <<tree, quitAt, deque, hand, todo, visited>>
 
 \* the polling loop; a failed poll (followed by the 1 ms sleep) leaves the state unchanged
 IdleRecv(w) == pc[w] = "idle" /\ (Pop(w, "act") \/ Steal(w, "act"))
@@ -145,7 +150,7 @@ Activate(w) ==
 \* send_quit(); return None
 PushQuit(w) ==
   /\ pc[w] = "pushquit"
-  /\ deque' = [deque EXCEPT ![w] = Append(@, QuitMsg)]
+  /\ deque' = IF Mutant = "noresend" /\ hand[w].k = "quit" THEN deque ELSE [deque EXCEPT ![w] = Append(@, QuitMsg)]
   /\ hand' = [hand EXCEPT ![w] = NoneMsg]
   /\ pc' = [pc EXCEPT ![w] = "done"]
   /\ UNCHANGED <<tree, quitAt, todo, active, quitNow, visited>>
@@ -162,11 +167,15 @@ RECURSIVE Reach(_)
 Reach(S) == LET nxt == S \cup UNION {tree.ch[n] : n \in S} IN IF nxt = S THEN S ELSE Reach(nxt)
 Reachable == Reach({tree.roots[i] : i \in 1..Len(tree.roots)})
 
+\* a visitor has asked to quit (not the same thing as the quit flag being set: a protocol that raises the flag on
+\* its own must not get its losses excused by it)
+Asked == \E n \in quitAt : visited[n] > 0
 NoDup == \A n \in Nodes : visited[n] <= 1
-NoLoss == (AllDone /\ ~quitNow) => \A n \in Reachable : visited[n] = 1
+NoLoss == (AllDone /\ ~Asked) => \A n \in Reachable : visited[n] = 1
+FlagOnlyAfterRequest == quitNow => Asked
 NothingInvented == \A n \in Nodes : visited[n] > 0 => n \in Reachable
 CounterInRange == active \in 0..N
-NoWorkStranded == (AllDone /\ ~quitNow) =>
+NoWorkStranded == (AllDone /\ ~Asked) =>
                      \A w \in W : \A i \in 1..Len(deque[w]) : deque[w][i].k = "quit"
 InDeque(k) == \E w \in W : \E i \in 1..Len(deque[w]) : deque[w][i].k = k
 QuitNeverVanishes ==
@@ -179,7 +188,7 @@ ExitClean == ~quitNow => \A w \in W : pc[w] = "done" =>
 \* the tempting invariant that does NOT hold for the real protocol (kept for the non-vacuity demo)
 QuiescenceNaive == (active = 0) => \A w \in W : hand[w].k # "work"
 
-Safety == NoDup /\ NoLoss /\ NothingInvented /\ CounterInRange /\ NoWorkStranded
+Safety == NoDup /\ NoLoss /\ FlagOnlyAfterRequest /\ NothingInvented /\ CounterInRange /\ NoWorkStranded
           /\ QuitNeverVanishes /\ ExitClean
 Term == <>AllDone
 =============================================================================
